@@ -22,10 +22,10 @@ def main():
     index = []
     for prop in sorted(os.listdir(SRC)):
         d = os.path.join(SRC, prop)
-        for n in (1, 2, 3):
+        if not os.path.isdir(d) or not re.fullmatch(r"C\d+", prop):
+            continue
+        for n in (1, 2, 3, 4):
             patch = os.path.join(d, f"change{n}.diff")
-            if n == 3:
-                patch = os.path.join(d, "extra_change3.diff")
             if not os.path.exists(patch):
                 continue
             conf = os.path.join(d, f"confirm{n}.log")
@@ -44,25 +44,25 @@ def main():
             os.makedirs(out, exist_ok=True)
             shutil.copy(patch, os.path.join(out, "patch.diff"))
             demo = None
-            for cand in (f"demo{n}.rs", f"demo{n}.diff", "extra_demo3.rs"):
-                if os.path.exists(os.path.join(d, cand)) and (n != 3 or cand.startswith("extra")):
+            for cand in (f"demo{n}.rs", f"demo{n}.diff"):
+                if os.path.exists(os.path.join(d, cand)):
                     demo = cand; shutil.copy(os.path.join(d, cand), os.path.join(out, "demo" + os.path.splitext(cand)[1])); break
             how = ""
-            for cand in (f"demo{n}.how", "extra_demo3.how"):
-                if os.path.exists(os.path.join(d, cand)) and (n != 3 or cand.startswith("extra")):
+            for cand in (f"demo{n}.how",):
+                if os.path.exists(os.path.join(d, cand)):
                     how = open(os.path.join(d, cand)).read().strip(); break
-            notes = open(os.path.join(d, "notes.md")).read() if os.path.exists(os.path.join(d, "notes.md")) else ""
+            notes = open(os.path.join(d, f"notes{n}.md")).read() if os.path.exists(os.path.join(d, f"notes{n}.md")) else ""
             detection = []
             if os.path.exists(det):
                 for line in open(det):
-                    m = re.match(r"== (C\d+): (.*)$", line.strip())
+                    m = re.match(r"== (C\d+)(?: \[\w+\] \d+s)?: (.*)$", line.strip())
                     if m:
                         viol = re.findall(r"failed obligation: (\S+)", m.group(2))
                         und = "UNDECIDED" in m.group(2)
                         detection.append({"check": m.group(1), "result": "VIOLATION" if "VIOLATION" in m.group(2) else ("undecided" if und else "not detected"),
                                           "failed_obligations": sorted(set(viol))[:8]})
             meta = {"property": prop, "breaks": f"{prop} (see /verif/properties.jsonl)", "files_changed": sorted(set(re.findall(r"^\+\+\+ b/(\S+)", open(patch).read(), re.M))),
-                    "needs_to_manifest_and_author_notes": section(notes, n),
+                    "needs_to_manifest_and_author_notes": notes[:3000],
                     "demonstration": {"file": demo, "how": how.replace(f"/tmp/wt_{prop}", "<scratch worktree of /repo>")},
                     "confirmed_by_me": {"cmd": f"bin/seed_confirm.sh {d} {n}  (scratch worktree of /repo: demo on the clean tree, demo with the change, pinned suite with the change)",
                                         "demo_on_clean_tree_rc": int(clean.group(1)), "demo_with_change_rc": int(changed.group(1)), "suite_with_change": suite[:6]},
